@@ -182,6 +182,28 @@ Example C15_negative_index_refused :
   let s := run E0 (init ∅) two_honest in vstep E0 s (Report 1%N 1%N 22%N (-1) true) = (s, Fail).
 Proof. vm_compute. reflexivity. Qed.
 
+(* (7d) node independence (FULL since /repo 3dd4152; before, the lock step Finalizing dropped its state
+   change on a witness node that had not voted and held no broadcast job: former finding
+   C15.lock_finalizing_depends_on_local_jobs, an application-hash divergence).  Two nodes that see
+   the same transactions and the same committed tracker names, but have ANY different witness
+   flags, validator addresses and job stores at each block end, compute the same state — tracker
+   stores of lock and redeem trackers alike, balances and ghost log.  (The redeem steps
+   VerifyRedeem / RedeemConfirmed may fail on a missing job but write nothing.)  What stays
+   node-local is outside this state: the node's job store. *)
+Theorem C15_tracker_state_node_independent : forall E ops ops',
+  Forall2 op_sim ops ops' -> forall s, run E s ops = run E s ops'.
+Proof. exact state_node_independent. Qed.
+Print Assumptions C15_tracker_state_node_independent.
+
+(* regression example: a witness node without the broadcast job that has not voted moves the
+   tracker to BusyFinalizing like everybody else *)
+Example C15_finalizing_without_local_job :
+  let s := run E0 (init ∅) [Lock 1%N 1%N; EndBlock {| nl_witness := false; nl_addr := 50%N; nl_bjob := [] |} [1%N];
+                            Report 1%N 1%N 20%N 0 true] in
+  option_map t_state (ongoing (vstep E0 s (EndBlock {| nl_witness := true; nl_addr := 50%N; nl_bjob := [] |} [1%N])).1 !! 1%N)
+    = Some S_BUSYFINALIZING.
+Proof. vm_compute. reflexivity. Qed.
+
 (* (8) supply counter = wrapped tokens in circulation ([tot] counts the supply address too, hence
    the factor 2).  FULL over all histories when the configured supply address is not the address
    of a signing key and is not 20 bytes long (true of the shipped configurations:
